@@ -10,8 +10,14 @@ def run(tier, seed):
     hc = hcommon.HandlerCheck(PROP, tier, seed)
     hc.gate()
     hc.run_corpus(lambda kind: srcprops.oracle_c08)
-    for cfg, data, k, reqs_list in srcprops.c08_cases(tier, hc.rng):
-        kind, ops, obs = srcprops.nak_source_case(cfg, data, k, reqs_list)
+    for case in srcprops.c08_cases(tier, hc.rng):
+        if case[0] == "multi":
+            _, cfg, data, sched, ack_after = case
+            kind, ops, obs = srcprops.multi_nak_source_case(cfg, data, sched, ack_after)
+            k = 99
+        else:
+            cfg, data, k, reqs_list = case
+            kind, ops, obs = srcprops.nak_source_case(cfg, data, k, reqs_list)
         hc.add_trace(kind, ops, obs, label=f"nak@{k}", oracle=srcprops.oracle_c08)
         hc.count(("inject_after_calls", min(k, 8)))
         if len(hc.v.violations) > 3:
